@@ -108,8 +108,10 @@ def run(tier):
                 evals += len(sub)
                 for jj, i in enumerate(sub):
                     want = res[vn(v)][i][perm]
-                    if v[0] == "mem":
-                        ok = np.allclose(D2[jj], want, rtol=1e-8, atol=1e-10 * float(np.max(want)))
+                    if v[0] == "mem" or vn(v) == "mem2:newton":
+                        # MEM is a closed form and the Newton iteration stops on a rotation invariant criterion (the
+                        # Euclidean norm of the moment residual): both are equivariant to round-off
+                        ok = np.allclose(D2[jj], want, rtol=1e-7, atol=1e-8 * float(np.max(want)))
                     else:
                         # within the solver tolerance, measured in moment space
                         ok = float(np.linalg.norm(moments_of(D2[jj], d) - moments_of(want, d))) <= 0.0201
